@@ -216,7 +216,10 @@ func evalPath(node *jparse.PathNode, data reflect.Value, env *environment) (refl
 	for i, step := range node.Steps {
 
 		if step0, ok := step.(*jparse.ArrayNode); ok && i == 0 {
-			output, err = eval(step0, output, env)
+			// An array constructor in first position is evaluated
+			// once, against the context item itself (not against
+			// the array that wraps a non-array context item).
+			output, err = eval(step0, data, env)
 		} else {
 			output, err = evalPathStep(step, output, env, i == lastIndex)
 		}
